@@ -60,8 +60,57 @@ def make_text(rng, src):
     for _ in range(rng.choice([0, 1, 2, 4])):
         i = rng.randrange(len(text) + 1)
         text = text[:i] + rng.choice(SPRINKLE) + text[i:]
+    if rng.random() < 0.06:
+        # a byte order mark as the very first character (utf-8-sig style
+        # readers drop it, the library keeps it)
+        text = '\ufeff' + text
     # no lone surrogates
     return ''.join(c for c in text if not 0xd800 <= ord(c) <= 0xdfff)
+
+
+def straddle_text(rng):
+    """A text whose UTF-8 form has a multi-byte character lying across a
+    typical buffer / probe size."""
+    T_ = rng.choice([512, 1024, 2048, 4096, 8192, 16384, 32768, 65536])
+    ch = rng.choice(['\u00e9', '\u20ac', '\U0001f600', '\u4e2d'])
+    n = len(ch.encode('utf-8'))
+    j = rng.randint(1, n - 1)            # bytes of ch in front of T_
+    head = rng.choice(["select '", "insert into t values ('", "-- ",
+                       "/* ", 'select "'])
+    tail = {"select '": "' from t;", "insert into t values ('": "');",
+            "-- ": "\nselect 1;", "/* ": " */ select 1;",
+            'select "': '" from t;'}[head]
+    fill = T_ - j - len(head)
+    body = ('abcdefg ' * (fill // 8 + 1))[:fill]
+    return head + body + ch * rng.choice([1, 2, 5]) + tail + \
+        rng.choice(['', ' select 2;', '\nselect \'' + ch + '\';'])
+
+
+def check_straddle(ctx):
+    rec, rng = ctx.rec, ctx.rng
+    rec.case()
+    text = straddle_text(rng)
+    u8 = text.encode('utf-8')
+    for api in ('split', 'parse') if len(text) < 20000 else ('split',):
+        ref = observe(api, text, {})
+        for name, data, enc in (('utf8-bytes-no-encoding', u8, None),
+                                ('bytes+utf-8', u8, 'utf-8'),
+                                ('stringio', None, None)):
+            rec.monitor('input_forms')
+            if data is None:
+                data = io.StringIO(text)
+            got = observe(api, data, {}, enc)
+            if got != ref:
+                rec.violation('form-' + name + '-straddle',
+                              {'text': text[:200] + '...' + text[-60:],
+                               'length': len(text), 'api': api, 'form': name},
+                              '%s(%s) of a %d-byte text with a multi-byte '
+                              'character across a buffer size differs from '
+                              '%s(str): %s vs %s' % (
+                                  api, name, len(u8), api, str(got)[:80],
+                                  str(ref)[:80]), key=('straddle', name, api))
+    rec.count('straddle_cases')
+    rec.nontrivial(('straddle', len(u8) // 512))
 
 
 def observe(api, data, opts, encoding=None):
@@ -143,6 +192,23 @@ def check_forms(ctx, text, opts):
     if a != b or a != c:
         rec.violation('parsestream', {'text': text}, 'parsestream yields '
                       'other statements than parse', key='ps')
+    elif isinstance(a, list) and len(a) > 1:
+        # the usual consumer: a loop over parsestream() that calls the
+        # library again for every statement it receives
+        d = []
+        try:
+            for stmt in sqlparse.parsestream(io.StringIO(text)):
+                d.append(oracles.dump_tree(stmt))
+                sqlparse.format(str(stmt), keyword_case='upper')
+                sqlparse.split('select 1; select 2')
+        except Exception as exc:
+            d = 'EXC %s' % type(exc).__name__
+        rec.count('parsestream_consumed_lazily')
+        if d != a:
+            rec.violation('parsestream-lazy', {'text': text}, 'a loop over '
+                          'parsestream() that calls format()/split() for '
+                          'each statement receives other statements than '
+                          'parse() returns', key='psl')
     if rec.evaluations % 499 == 1:
         rec.sample({'text': text[:200], 'options': opts})
 
@@ -385,6 +451,8 @@ def shard(ctx):
             text = make_text(rng, src)
             if k % 150 == 75:
                 check_big_stream(ctx)
+            elif k % 20 == 12:
+                check_straddle(ctx)
             elif k % 45 == 0:
                 check_cli(ctx, big_text(rng, src), tmpdir,
                           subprocess_too=(k % 90 == 0))
